@@ -24,7 +24,7 @@ POOLS = {
                      "explicit_euler", "generalized_rush_larsen", "hybrid_rush_larsen", "missing_values"],
     "scheme_helpers": ["s0_linearized", "ds0_dt_linearized", "dss_dt_linearized", "linearized", "dt_linearized", "ds0_dt_linearised", "ds0_dt_nonlinear"],
     "python_keywords_builtins": ["lambda", "def", "None", "True", "False", "len", "int", "float", "in", "is", "if", "for", "print", "max", "min", "sum", "range", "list", "dict", "import", "as", "pass", "global", "del", "class", "return", "yield", "with", "not", "and", "or"],
-    "c_keywords_libm": ["double", "register", "const", "auto", "pow", "fabs", "M_PI", "void", "static", "char", "long", "short", "unsigned", "struct", "floor", "fmod", "strcmp", "NUM_STATES", "NULL", "main", "y0", "y1", "j0", "gamma", "signgam"],
+    "c_keywords_libm": ["double", "register", "const", "auto", "pow", "fabs", "M_PI", "void", "static", "char", "long", "short", "unsigned", "struct", "floor", "fmod", "strcmp", "NUM_STATES", "NULL", "main", "y0", "y1", "j0", "gamma", "signgam", "true", "false", "bool", "inline", "restrict", "I", "complex"],
     "sympy_names": ["E", "I", "S", "N", "Q", "beta", "gamma", "zeta", "oo", "zoo", "nan", "Symbol", "Abs", "re", "im", "sign", "Piecewise", "O"],
     "jax_names": ["jax", "jit"],
     "underscore": ["_values_0", "_values_1", "_", "__name__", "_states", "__builtins__"],
@@ -179,7 +179,9 @@ def model_text(n, role, variant=None, partner=None):
         return (f"parameters(p0=0.5, {P}=1.5)\nstates(s0=0.75, {Sx}=1.25, " + ", ".join(f"{w}={0.25 + 0.125 * j}" for j, w in enumerate(ws)) + f")\n\n{I} = s0 * p0 + t + {Sx} * 0.25\n"
                 f"ds0_dt = -s0 * {P} + {I} + time * 0.125\nd{Sx}_dt = {Sx} * -0.5 + s0 - {P} * 0.0625\n" + "".join(f"d{w}_dt = -{w} * 0.5 + {Sx} * {0.0625 * (j + 1)} + {I} * {P}\n" for j, w in enumerate(ws)))
     # the intermediate feeds both derivatives: whatever is emitted between them (scheme helper variables) can capture it
-    return (f"parameters(p0=0.5, {P}=1.5)\nstates(s0=0.75, {Sx}=1.25)\n\n{I} = s0 * p0 + t + {Sx} * 0.25\nds0_dt = -s0 * {P} + {I} + time * 0.125\nd{Sx}_dt = {Sx} * -0.5 + s0 - {P} * 0.0625 + {I} * 0.03125\n")
+    # ... and a nested conditional mentions the identifier in every role (boolean constants / ternaries of the C printer)
+    return (f"parameters(p0=0.5, {P}=1.5)\nstates(s0=0.75, {Sx}=1.25)\n\n{I} = s0 * p0 + t + {Sx} * 0.25\nds0_dt = -s0 * {P} + {I} + time * 0.125 + Conditional(Gt({P}, 1.0), {Sx} * 0.03125, {I} * 0.0625)\n"
+            f"d{Sx}_dt = {Sx} * -0.5 + s0 - {P} * 0.0625 + {I} * 0.03125\n")
 
 
 class RenamedNames:
